@@ -23,12 +23,14 @@ import (
 	"fmt"
 	"net"
 	"net/http"
+	"net/url"
 	"os"
 	"path/filepath"
 	"strings"
 	"testing"
 	"time"
 
+	"github.com/imroc/req/v3/internal/netutil"
 	"github.com/imroc/req/v3/internal/verifh"
 	"github.com/quic-go/quic-go"
 )
@@ -512,6 +514,76 @@ func TestVerif_C12_set(t *testing.T) {
 		s.Case(c.line, c.impl, c.ok, class, c.nontriv, c.human)
 	}
 	for _, must := range []string{"force=-", "force=1", "force=2", "force=3", "h3-enabled"} {
+		if c12Hist[s][must] == 0 {
+			t.Errorf("never reached bucket %q", must)
+		}
+	}
+	s.Finish()
+}
+
+// TestVerif_C12_altkey: the key under which Alt-Svc state (pending entries, jar) is filed must
+// separate origins: equal keys only for the same (scheme, host, effective port). A key that
+// merges two origins lets an HTTP/3 advertisement of one reroute requests for the other.
+func TestVerif_C12_altkey(t *testing.T) {
+	s := verifh.New(t, "C12", "c12altkey",
+		"pairs of URLs over schemes {http, https} x hosts {127.0.0.1, localhost, example.com, EXAMPLE.com, a.example.com, [::1], [2001:db8::1]} x ports {none, default, 80, 443, 8443, 8444, 1, 65535}; oracle: netutil.AuthorityKey(u1) == AuthorityKey(u2) only if scheme, lower-cased host and effective port agree, and the key never changes when the default port is written explicitly; non-trivial = pairs differing in exactly one component")
+	r := s.Rand()
+	schemes := []string{"http", "https"}
+	hosts := []string{"127.0.0.1", "localhost", "example.com", "EXAMPLE.com", "a.example.com", "[::1]", "[2001:db8::1]"}
+	ports := []string{"", "def", "80", "443", "8443", "8444", "1", "65535"}
+	type org struct{ scheme, host, port, raw string }
+	mk := func() org {
+		sc, h, p := verifh.Pick(r, schemes), verifh.Pick(r, hosts), verifh.Pick(r, ports)
+		def := map[string]string{"http": "80", "https": "443"}[sc]
+		raw := sc + "://" + h
+		eff := def
+		switch p {
+		case "":
+		case "def":
+			raw += ":" + def
+		default:
+			raw += ":" + p
+			eff = p
+		}
+		return org{sc, strings.ToLower(h), eff, raw + "/x"}
+	}
+	n := verifh.N(4000, 100000)
+	for i := 0; i < n; i++ {
+		a, b := mk(), mk()
+		if r.Intn(3) == 0 { // near pairs: change one component only
+			b = a
+			switch r.Intn(2) {
+			case 0:
+				for b.port == a.port {
+					x := mk()
+					b.port = x.port
+					b.raw = a.scheme + "://" + a.host + ":" + x.port + "/x"
+				}
+			case 1:
+				b.scheme = map[string]string{"http": "https", "https": "http"}[a.scheme]
+				b.raw = b.scheme + "://" + a.host + ":" + a.port + "/x"
+			}
+		}
+		ua, err1 := url.Parse(a.raw)
+		ub, err2 := url.Parse(b.raw)
+		if err1 != nil || err2 != nil {
+			continue
+		}
+		ka, kb := netutil.AuthorityKey(ua), netutil.AuthorityKey(ub)
+		same := a.scheme == b.scheme && a.host == b.host && a.port == b.port
+		ok := !(ka == kb && !same)
+		if ka == kb {
+			c12Count(s, "keys-equal")
+		} else {
+			c12Count(s, "keys-differ")
+		}
+		if same {
+			c12Count(s, "same-origin")
+		}
+		s.Observe(a.raw+" | "+b.raw, ok, "", !same, fmt.Sprintf("AuthorityKey(%s) vs AuthorityKey(%s)", a.raw, b.raw),
+			fmt.Sprintf("different origins share the Alt-Svc key %q", ka))
+	}
+	for _, must := range []string{"keys-equal", "keys-differ", "same-origin"} {
 		if c12Hist[s][must] == 0 {
 			t.Errorf("never reached bucket %q", must)
 		}
